@@ -17,6 +17,12 @@
 //	   order, exactly once;
 //	end: no callback help after "Shell is gone"; exit 0 after at most one
 //	   entered (empty) line.
+//
+// A third party (late.go): connections opened just before the shell is
+// completed, silent until then, send their requests while the shell is
+// attached (the shell's traffic must not notice) and after it has ended,
+// before the operator's line (a further shell may come and go; exit status,
+// callback help and the one line are judged as always).
 package c12
 
 import (
@@ -99,16 +105,22 @@ type Cfg struct {
 	BodiedIn bool `json:"shell_input_request_with_unfinished_body"`
 	// Log: where the JSON log goes: "" (none), file, devnull, fifo (drained by the harness), env-file
 	Log string `json:"log,omitempty"`
+	// LateDuring / LateAfter: what connections that were opened (TCP only, or TCP and a completed TLS handshake)
+	// just before the request that completes the real shell, and have stayed silent since, ask for while the real
+	// shell is attached / after it has ended and before the operator's line (see late.go)
+	LateDuring []string `json:"preopened_connections_speak_during_shell,omitempty"`
+	LateAfter  []string `json:"preopened_connections_speak_after_shell,omitempty"`
 }
 
 func (c Cfg) sig() string {
-	return fmt.Sprintf("%s|%s|%s|%s|%s|%s|h%v|ts%v|f%v|rst%v", c.Kind, c.Order, c.Junk, c.JunkWhere, c.Traffic, c.Ending, c.Hold, c.NoTS, c.Files, c.PollRST) + map[bool]string{true: "|1cpu", false: ""}[c.OneCPU] + map[bool]string{true: "|cl", false: ""}[c.FixedLen] + "|log=" + c.Log
+	return fmt.Sprintf("%s|%s|%s|%s|%s|%s|h%v|ts%v|f%v|rst%v", c.Kind, c.Order, c.Junk, c.JunkWhere, c.Traffic, c.Ending, c.Hold, c.NoTS, c.Files, c.PollRST) + map[bool]string{true: "|1cpu", false: ""}[c.OneCPU] + map[bool]string{true: "|cl", false: ""}[c.FixedLen] + "|log=" + c.Log + lateSig(c)
 }
 
 // makeCfg derives the configuration of case i.  C12_FORCE="order=o-i,junk=wrong-id,hold=true,ending=out-end,traffic=idle,where=pre"
 // overrides single dimensions (a debugging aid; evidence of such a run says so).
-func makeCfg(rng *rand.Rand, i, rot int) Cfg {
+func makeCfg(rng, lrng *rand.Rand, i, rot int) Cfg {
 	c := makeCfg0(rng, i, rot)
+	lateCfg(&c, lrng, i-i/10, rot)
 	f := os.Getenv("C12_FORCE")
 	if f == "" || c.Kind != "full" {
 		return c
@@ -141,6 +153,10 @@ func makeCfg(rng *rand.Rand, i, rot int) Cfg {
 			c.FixedLen = v == "true"
 		case "bodiedin":
 			c.BodiedIn = v == "true"
+		case "lateduring": // lateduring=io+c
+			c.LateDuring = strings.Split(v, "+")
+		case "lateafter":
+			c.LateAfter = strings.Split(v, "+")
 		}
 	}
 	return c
@@ -544,6 +560,9 @@ type env struct {
 	nRefusedOut    int       // refused /o requests made so far in this case
 	heldShellOut   bool      // the ended shell's own /o request is still connected
 	heldBodied     int       // requests with an unasked-for, unfinished body whose client is still connected
+
+	lrng         *rand.Rand    // the late speakers' own stream
+	lateD, lateA [][]*lateConn // pre-opened connections that speak during / after the shell, per entry of cfg.LateDuring / LateAfter
 }
 
 // refusedConn: what the client of a refused request does with its connection.
@@ -568,7 +587,7 @@ func (e *env) notice(re string, from int, d time.Duration) (int, time.Time, bool
 
 func runCase(r *mon.Run, bin string, i int, alone bool) *result {
 	rng := r.Rng("case", i)
-	cfg := makeCfg(rng, i, r.Rng("rotation", 0).IntN(20))
+	cfg := makeCfg(rng, r.Rng("late", i), i, r.Rng("rotation", 0).IntN(20))
 	tl := &timeline{t0: time.Now()}
 	res := &result{cfg: cfg, counts: map[string]int64{}, tl: tl}
 	mult := time.Duration(1)
@@ -632,7 +651,7 @@ func runCase(r *mon.Run, bin string, i int, alone bool) *result {
 	}
 	tl.t0 = s.P.Started
 	tl.add("HARNESS 'Listening on %s' seen; args %v", s.Addr, args)
-	e := &env{r: r, res: res, cfg: cfg, rng: rng, s: s, tl: tl, mult: mult, addr: s.Addr, fdir: fdir}
+	e := &env{r: r, res: res, cfg: cfg, rng: rng, s: s, tl: tl, mult: mult, addr: s.Addr, fdir: fdir, lrng: r.Rng("late-run", i)}
 	defer func() {
 		if e.p != nil {
 			e.p.halt()
@@ -1266,6 +1285,8 @@ func (e *env) fullShell() {
 	}
 	defer stopPump()
 	defer t.abort.Store(true)
+	// connections that will speak only later are opened now, while the listener is open
+	e.openLate()
 	floodDone := make(chan struct{})
 	startFlood := func() {
 		go func() {
@@ -1380,10 +1401,16 @@ func (e *env) fullShell() {
 	if c.Traffic != "trickle" {
 		t.pump(true, true, stop, &wg)
 	}
+	// pre-opened connections speak while the shell carries traffic; traffic must go on after that
+	e.lateDuring(id)
+	t.mu.Lock()
+	sentAtLate, typedAtLate := t.sentPost, t.typedPost
+	t.mu.Unlock()
 	dl := time.Now().Add(boundTraffic*e.mult + time.Duration(c.StayMs)*time.Millisecond)
 	for time.Now().Before(dl) {
 		t.mu.Lock()
-		done := t.sent >= c.NTok && t.typed >= c.NLines && t.sentPost >= 60 && t.typedPost >= 60 && (!c.LongStay || time.Since(tReady) > time.Duration(c.StayMs)*time.Millisecond)
+		done := t.sent >= c.NTok && t.typed >= c.NLines && t.sentPost >= 60 && t.typedPost >= 60 && (!c.LongStay || time.Since(tReady) > time.Duration(c.StayMs)*time.Millisecond) &&
+			t.sentPost >= sentAtLate+30 && t.typedPost >= typedAtLate+30
 		serr := t.sendErr
 		t.mu.Unlock()
 		_, rerr := t.received()
@@ -1393,6 +1420,10 @@ func (e *env) fullShell() {
 		time.Sleep(2 * time.Millisecond)
 	}
 	stopPump()
+	t.mu.Lock()
+	res.count("tokens_sent_after_late_requests", int64(t.sentPost-sentAtLate))
+	res.count("lines_typed_after_late_requests", int64(t.typedPost-typedAtLate))
+	t.mu.Unlock()
 	if !e.checkTraffic(t, true) {
 		return
 	}
@@ -1646,9 +1677,11 @@ func (e *env) afterEnd(markEnd int, dropConns func()) {
 			e.heldShellOut = true
 			e.held = append(e.held, "the ended shell's own POST /o (request body not finished)")
 		}
-		if len(e.held) > 0 {
-			e.tl.add("HARNESS clients stay connected: %s", strings.Join(e.held, "; "))
-		}
+	}
+	// the pre-opened connections that have been silent so far speak now, before the operator enters anything
+	e.lateAfter()
+	if c.Hold && len(e.held) > 0 {
+		e.tl.add("HARNESS clients stay connected: %s", strings.Join(e.held, "; "))
 	}
 	st, sig, exited := e.s.P.WaitExit(time.Duration(c.SelfWait) * time.Millisecond)
 	if exited {
@@ -1832,6 +1865,7 @@ func (e *env) curlShell() {
 	cmd.Dir = e.s.Home
 	cmd.Stdout, cmd.Stderr = &stderr, &stderr
 	cmd.SysProcAttr = &syscall.SysProcAttr{Setpgid: true}
+	e.openLate()
 	markSecond := e.s.P.CleanLen()
 	t2 := time.Now()
 	e.t2 = t2
@@ -1878,10 +1912,14 @@ func (e *env) curlShell() {
 	if c.Traffic != "trickle" {
 		pump()
 	}
+	e.lateDuring("")
+	t.mu.Lock()
+	typedAtLate := t.typedPost
+	t.mu.Unlock()
 	dl := time.Now().Add(boundTraffic * e.mult)
 	for time.Now().Before(dl) {
 		t.mu.Lock()
-		done := t.typed >= c.NLines && t.typedPost >= 60
+		done := t.typed >= c.NLines && t.typedPost >= 60 && t.typedPost >= typedAtLate+30
 		t.mu.Unlock()
 		if done {
 			break
@@ -1898,6 +1936,7 @@ func (e *env) curlShell() {
 	t.mu.Lock()
 	res.count("lines_typed_before_second_half", int64(t.typedPre))
 	res.count("lines_typed_after_refusal", int64(t.typedPost))
+	res.count("lines_typed_after_late_requests", int64(t.typedPost-typedAtLate))
 	t.mu.Unlock()
 	e.tl.add("TRAFFIC %d command lines typed", typed)
 	// wait for the last answer, but not if the shell is already gone
@@ -1985,8 +2024,12 @@ func merge(r *mon.Run, res *result, orderCount bool) {
 
 func Run(r *mon.Run) {
 	r.Rule = "one case = one run of the real binary with -one-shell on a pty, with a connect(2) poller every 5 ms for its whole life; " +
-		"distinct = (kind, arrival order, junk kind and place, in-flight traffic, ending, clients holding on, flags); " +
-		"non-trivial: every case makes connections before the shell, passes >= 220 tokens/lines (curl|sh: >= 220 round trips) across the listener close and observes the exit"
+		"distinct = (kind, arrival order, junk kind and place, in-flight traffic, ending, clients holding on, flags, what pre-opened silent connections ask for during / after the shell); " +
+		"non-trivial: every case makes connections before the shell, passes >= 220 tokens/lines (curl|sh: >= 220 round trips) across the listener close and observes the exit; " +
+		"every full case also opens 3-7 connections (TCP only, or TCP+TLS handshake) just before the request that completes the shell, which stay silent and send their request only later: " +
+		"two kinds (a would-be shell: /io, an /i+/o pair, a duplicate /i; and /c, a file, non-HTTP bytes or a lone /i) while the shell is attached and carrying traffic (>= 30 more tokens and lines must pass afterwards), " +
+		"and, after the shell has ended and before the operator's line, a would-be shell (/io or an /i+/o pair, sometimes both in turn, or a lone /i) followed by /c, a file or non-HTTP bytes; " +
+		"then the usual end: no callback help, exit status 0 after at most the one entered line"
 	r.Assumptions = []string{
 		"phase A ends when the harness STARTS the request that completes the shell (the listener may legitimately close before the ready notice reaches the terminal)",
 		"a successful connect after the close counts only if the listener presents this program's certificate (another process may be given the freed port)",
@@ -1994,13 +2037,20 @@ func Run(r *mon.Run) {
 		"progress bounds: refusal 20 s after the ready notice, exit 30 s after the one entered line, traffic 30 s; a fired bound is re-tried alone with the bound doubled",
 		"clients hang up as soon as they are refused / their shell is gone (as curl does when its pipe ends); with hold=true (every tenth case by construction, one in six otherwise) they never hang up by themselves",
 		"the process is given 2 s (every fifth case 10 s) to exit by itself before exactly one empty line is entered",
+		"late requests on pre-opened connections: whether they are served, refused or find their connection already closed is promised neither way and only counted (late_*); " +
+			"judged are only the attached shell's traffic (during), and callback help / exit status / exit after one line (after)",
+		"a late request that becomes a further fully attached shell after the only shell has ended is used (one chunk of output) and ended by its own client (request body ends) before the operator's line; " +
+			"the operator types nothing while it is attached, and the one line is entered only after every pre-opened connection has spoken and (unless hold) hung up — " +
+			"a line entered while a further shell is attached or while a silent connection is still pending is outside the statement",
+		"floor late_later_shells_ready: the second 'shell connected' event after the listener was closed must really have been produced (the program as it stands admits a request on a connection it accepted before the close for about 5 s); " +
+			"if the program stops admitting them this floor has to go",
 	}
 	if f := os.Getenv("C12_FORCE"); f != "" {
 		r.Extra("forced_dimensions", f)
 	}
 	if os.Getenv("C12_LIST") != "" { // debugging aid: print the case list of this seed/tier and stop
 		for i := 0; i < r.N(10, 150); i++ {
-			fmt.Fprintf(os.Stderr, "%d %s\n", i, makeCfg(r.Rng("case", i), i, r.Rng("rotation", 0).IntN(20)).sig())
+			fmt.Fprintf(os.Stderr, "%d %s\n", i, makeCfg(r.Rng("case", i), r.Rng("late", i), i, r.Rng("rotation", 0).IntN(20)).sig())
 		}
 		r.Inconclusive("C12_LIST: nothing was run")
 		return
@@ -2090,6 +2140,17 @@ func Run(r *mon.Run) {
 	r.Floor("exits_observed", full*6/10)
 	r.Floor("tokens_sent_after_refusal", full/2*50)
 	r.Floor("lines_typed_after_refusal", full*6/10*50)
+	// the late speakers
+	r.Floor("late_runs_with_preopened_silent_connections", full*8/10)
+	r.Floor("late_conns_opened", full*3*8/10)
+	r.Floor("late_conns_opened_tls_handshake_done", full)
+	r.Floor("late_conns_opened_tcp_only", full)
+	r.Floor("late_requests_during_shell", full*2*6/10)
+	r.Floor("late_shell_requests_during_shell", full*6/10)
+	r.Floor("lines_typed_after_late_requests", full*6/10*30)
+	r.Floor("late_requests_after_shell", full*6/10)
+	r.Floor("late_shell_requests_after_shell", full*4/10)
+	r.Floor("late_later_shells_ready", full/4)
 }
 
 func compact(l []string) []string {
